@@ -2444,6 +2444,18 @@ func (s *Server) serveConnCounted(c net.Conn, countConcurrency bool) error {
 
 		if err == nil {
 			idleConnTime.Store(0)
+			if s.stop.Load() == 1 {
+				// Shutdown closes the connections it finds marked idle. If it saw
+				// this one before the store above, it has closed it and removed it
+				// from idleConns: don't start a handler whose response can't be
+				// written.
+				s.idleConnsMu.Lock()
+				_, tracked := s.idleConns[c]
+				s.idleConnsMu.Unlock()
+				if !tracked {
+					break
+				}
+			}
 			s.setState(c, StateActive)
 
 			if s.ReadTimeout > 0 {
